@@ -64,7 +64,7 @@ Example C04_example :
   (* second connection of a history whose first one ran over TLS: the stale flags are reset *)
   let p := set_flags (with_session (fresh false)) true true in
   outs (connect cfg true false p [SHeader []; SFeatures f0; SProceed; SHeader []; SFeatures f0; SSuccess])
-  = [o false ROpen; o false RStartTls].
+  = [o false ROpen []; o false RStartTls [SHeader []; SFeatures f0]].
 Proof. reflexivity. Qed.
 
 Print Assumptions C04_no_cleartext.
